@@ -96,7 +96,7 @@ STD_BINDINGS = {
     "collections.deque": ext_deque,
     "types.CoroutineType": cls("coroutine"), "types.GeneratorType": cls("generator"),
     "types.AsyncGeneratorType": cls("async_generator"), "types.FrameType": cls("frame"),
-    "types.MethodType": cls("method"), "types.FunctionType": cls("function"), "types.CodeType": cls("code"),
+    "types.MethodType": cls("method"), "types.BuiltinMethodType": cls("builtin_method"), "types.FunctionType": cls("function"), "types.CodeType": cls("code"),
     "functools.partial": cls("partial"), "classmethod": cls("classmethod"), "staticmethod": cls("staticmethod"),
     "collections.abc.Sequence": cls("Sequence"),
     "Exception": cls("Exception"), "RuntimeError": cls("RuntimeError"), "TypeError": cls("TypeError"),
